@@ -234,3 +234,15 @@ package protobuf
 //@     modifies fresh, ghost("unmarshalledFrom"), ghost("unmarshalled"), ghost("rpos")
 //@     invariant addrMap != nil && fresh(addrMap) && protoAddr != nil && forall k int :: 0 <= k && k < len(protoAddr.AddressMapping) ==> protoAddr.AddressMapping[k] != nil && be32is(protoAddr.AddressMapping[k].Key, id)
 //@     invariant forall b wallet.BackendID :: has(addrMap, b) ==> b == id
+
+// The frame written by writeEnvelope is read back by readEnvelope: the unmarshaller gets exactly the bytes that were written
+// after the two length bytes (i.e. what proto.Marshal returned) and the reader has then consumed exactly the frame.
+//@ pred pbLinked(w io.Writer, r io.Reader, p int, q int, n int) = forall i int :: 0 <= i && i < n ==> streamAt(r, q + i) == wroteAt(w, p + i)
+//@ func verifPBFrame
+//@   requires w != nil && r != nil && env != nil && streaming()
+//@   modifies *
+//@   inlines writeEnvelope, readEnvelope
+//@   callsite Unmarshal : pbLinked(w, r, old(wpos(w)), old(rpos(r)), wpos(w) - old(wpos(w))) ==>
+//@     len(b) == wpos(w) - old(wpos(w)) - 2 && rpos(r) - old(rpos(r)) == wpos(w) - old(wpos(w)) &&
+//@     (forall i int :: 0 <= i && i < len(b) ==> b[i] == wroteAt(w, old(wpos(w)) + 2 + i))
+//@   ensures wErr == nil && rErr == nil && pbLinked(w, r, old(wpos(w)), old(rpos(r)), wpos(w) - old(wpos(w))) ==> rpos(r) - old(rpos(r)) == wpos(w) - old(wpos(w))
